@@ -192,8 +192,25 @@ type mcRec struct {
 	sysWall   bool
 }
 
+// closerFS is an fs.FS with a Close method of its own, like *zip.ReadCloser: once closed nothing opens.
+type closerFS struct {
+	fs.FS
+	closed bool
+}
+
+func (c *closerFS) Close() error { c.closed = true; return nil }
+func (c *closerFS) Open(name string) (fs.File, error) {
+	if c.closed {
+		return nil, fmt.Errorf("open %s: the file system was closed", name)
+	}
+	return c.FS.Open(name)
+}
+
 type fcRec struct {
 	mounts [][2]string // guestPath as given, marker file name
+	// hasNil: a mount was overridden with a nil file system: what a guest sees of such a pre-open is not
+	// specified; values holding one are judged by their structure only
+	hasNil bool
 }
 
 func (r *mcRec) clone() *mcRec {
@@ -205,7 +222,7 @@ func (r *mcRec) clone() *mcRec {
 }
 
 func (r *fcRec) clone() *fcRec {
-	return &fcRec{mounts: append([][2]string(nil), r.mounts...)}
+	return &fcRec{mounts: append([][2]string(nil), r.mounts...), hasNil: r.hasNil}
 }
 
 type node struct {
@@ -503,9 +520,21 @@ func (c19) Run(t *tape.Tape, cfg sim.Config) (res sim.Result) {
 			marker++
 			mname := fmt.Sprintf("marker%d", marker)
 			var mfs fs.FS = fstest.MapFS{mname: &fstest.MapFile{Data: []byte("x")}}
+			if t.Chance(1, 3) {
+				// a file system that can be closed (an archive the embedder opened and owns): it is the embedder's
+				// to close, and every configuration holding it keeps working while the embedder has not
+				mfs = &closerFS{FS: mfs}
+			}
 			how = fmt.Sprintf("WithFSMount(%s,%q)", mname, gp)
 			nv := fc.WithFSMount(mfs, gp)
-			switch t.Choose(4) {
+			nilMount := false
+			switch t.Choose(5) {
+			case 4:
+				// a nil file system: overrides an existing mount of the path (the pre-open keeps its place and
+				// name, nothing is behind it), adds nothing otherwise
+				mname, nilMount = "", true
+				how = fmt.Sprintf("WithFSMount(nil,%q)", gp)
+				nv = fc.WithFSMount(nil, gp)
 			case 2:
 				mname = ""
 				how = fmt.Sprintf("WithDirMount(scratch,%q)", gp)
@@ -523,8 +552,11 @@ func (c19) Run(t *tape.Tape, cfg sim.Config) (res sim.Result) {
 					overrides++
 				}
 			}
-			if !found {
+			if !found && !nilMount {
 				rec.mounts = append(rec.mounts, [2]string{gp, mname})
+			}
+			if found && nilMount {
+				rec.hasNil = true
 			}
 			n := add("fc", nv, pi, how)
 			n.fc = rec
@@ -694,7 +726,7 @@ func observeMC(res *sim.Result, rt any, n *node, idx int, after string, stdouts 
 	}
 	// preopens
 	var pre []string
-	for fd := uint64(3); ; fd++ {
+	for fd := uint64(3); rec.fs == nil || !rec.fs.hasNil; fd++ {
 		e, err := g.Call(ctx, "fd_prestat_get", fd, 0x100)
 		if err != nil || e != 0 {
 			break
@@ -721,11 +753,11 @@ func observeMC(res *sim.Result, rt any, n *node, idx int, after string, stdouts 
 			wantPre = append(wantPre, "") // the TCP listeners of THIS instantiation's context
 		}
 	}
-	if strings.Join(pre, "\x00") != strings.Join(wantPre, "\x00") {
+	if (rec.fs == nil || !rec.fs.hasNil) && strings.Join(pre, "\x00") != strings.Join(wantPre, "\x00") {
 		return fail("preopen names %q, model has %q", pre, wantPre)
 	}
 	// each mount shows its own marker file
-	if rec.fs != nil {
+	if rec.fs != nil && !rec.fs.hasNil {
 		for i, m := range rec.fs.mounts {
 			if m[1] == "" {
 				continue // host directory mount: no marker
